@@ -27,7 +27,7 @@ PROPS = {
         "eval_extra": [], "probes": ["out-of-order file present", "compacted file (level>0) present", "size-triggered flush"],
         "assumptions": ["single client; background work runs only as scheduled operations", "integers inside +-2^53, no NaN/Inf"],
         "quick": {"runs": 7000, "budget_s": 120, "workers": 14},
-        "thorough": {"runs": 60000, "budget_s": 1500, "workers": 16, "env": {"VERIF_RUN_TIMEOUT_S": "900"}},
+        "thorough": {"runs": 60000, "budget_s": 1200, "workers": 16, "env": {"VERIF_RUN_TIMEOUT_S": "900"}},
     },
     "C01": {
         "world": "S", "level": "fault_enumeration",
@@ -39,7 +39,36 @@ PROPS = {
         "eval_extra": ["crash_states"], "probes": ["out-of-order file present", "size-triggered flush"],
         "assumptions": _CRASH_ASSUME,
         "quick": {"runs": 120, "budget_s": 170, "workers": 14},
-        "thorough": {"runs": 3000, "budget_s": 2400, "workers": 16, "env": {"VERIF_RUN_TIMEOUT_S": "900"}},
+        "thorough": {"runs": 3000, "budget_s": 1500, "workers": 16, "env": {"VERIF_RUN_TIMEOUT_S": "900"}},
+        # World S is sequential: a flush is atomic with respect to writes there.  The second part of this check takes crash
+        # images at scheduler steps of world C (harness/engine/c_crash.go): a share of the workers runs world C's binary with
+        # VERIF_PROP=C01; outcomes are merged into this property's evidence under the prefix "C:".
+        "also": [{
+            "world": "C", "share": 0.35,
+            "rule": "One case = world C's concurrent tasks without readers and dropper: 2-3 writers (disjoint series, 3-6 batches each, about half of the rows overwrite one of the "
+                    "writer's last three cells), a flusher (2-4 flushes), a compactor/merger (1-3 operations), a closer in a quarter of the cases, 1 WAL partition, after a sequential "
+                    "prologue (layout of ordered / out-of-order files, optional clean restart; in a quarter of the cases extended by (write, flush) pairs so that the log file sequence "
+                    "number is at or just below 9 -> 10); schedule as in C04 (file-system gates on data/ and wal/, lock-level yield points in a quarter of the cases). At every "
+                    "crash_every-th scheduler step (1,2,3,5; the process is quiescent: every task parked, blocked or finished) the journal of the live disk is cut at its current length, "
+                    "the image of that prefix is built in a fresh directory (parked operations have had no effect; with crash_torn additionally the image in which ONE parked write "
+                    "has landed as a prefix, byte-granular for log records, page-granular elsewhere), a new shard incarnation is opened on it by the real start-up path (gates and yield parking "
+                    "suspended), every measurement is read in full and judged, the incarnation is closed and discarded, and the live run goes on. Steps that changed neither the gated part of "
+                    "the journal nor the acknowledgement state are skipped. Oracle per cell (series, timestamp, field): the recovered value is that of the latest write to the cell whose "
+                    "acknowledgement the scheduler had observed before the crash step, or of a later write to it that was issued but not (observed as) acknowledged; a point with an acknowledged "
+                    "field is present; no row that no issued write contains; rows ascending, every timestamp once. evaluations += crash states. Non-trivial = at least one crash state and one "
+                    "acknowledged write.",
+            "eval_extra": ["crash_states"],
+            "probes": ["crash with a flush in flight", "crash with a write in flight", "crash with a compaction/merge in flight", "crash with two WAL files present",
+                       "crash during sequencer reload", "crash with a write and a flush in flight", "crash with two WAL files and a write acknowledged since the flush began",
+                       "crash with two WAL files whose sequence numbers differ in length (9.wal, 10.wal)", "crash image holds a compaction intent log"],
+            "assumptions": ["crash points of the concurrent world are the quiescent points of its scheduler (between two gated file-system calls / yield points); a write counts as acknowledged "
+                            "only once the scheduler has observed its WriteRows returning nil (returned-but-unobserved = in flight)",
+                            "cases contain no DropMeasurement and no reader; 1 WAL partition (the listed replay-order defect of several partitions is kept out)",
+                            "live reads, the settled read and the clean reopen of world C are clauses of C04 and are not judged here",
+                            "the index (mergeset) is journalled but not gated: its background flushes land in the journal in real time"],
+            "quick": {"runs": 600},
+            "thorough": {"runs": 12000},
+        }],
     },
     "C03": {
         "world": "S", "level": "fault_enumeration",
@@ -50,7 +79,7 @@ PROPS = {
                                                    "compaction log recovered: files renamed into place at start-up"],
         "assumptions": _CRASH_ASSUME,
         "quick": {"runs": 700, "budget_s": 150, "workers": 14},
-        "thorough": {"runs": 3000, "budget_s": 2400, "workers": 16, "env": {"VERIF_RUN_TIMEOUT_S": "900"}},
+        "thorough": {"runs": 3000, "budget_s": 1500, "workers": 16, "env": {"VERIF_RUN_TIMEOUT_S": "900"}},
     },
     "C07": {
         "world": "S", "level": "fault_enumeration",
@@ -98,7 +127,7 @@ PROPS = {
                                             "out-of-order merge with max-rows-per-segment not a multiple of 8 (process death), -0.0 with float-compress-algorithm = mlf, float blocks made of zeros only with a -0.0 among them",
                                             "rows always carry the host tag (no row without tags); time/full/snappy needs timestamps >= 2^60 ns apart inside one shard, i.e. a shard duration above 36.5 years"],
         "quick": {"runs": 500, "budget_s": 150, "workers": 14},
-        "thorough": {"runs": 8000, "budget_s": 2400, "workers": 16, "env": {"VERIF_RUN_TIMEOUT_S": "900"}},
+        "thorough": {"runs": 8000, "budget_s": 1500, "workers": 16, "env": {"VERIF_RUN_TIMEOUT_S": "900"}},
     },
     "C09": {
         "world": "S", "level": "exploration",
@@ -112,6 +141,6 @@ PROPS = {
         "assumptions": ["aggregates are executed the way the repository's own tests do: CreateCursor + ChunkReader with call reader-ops (series plan nil) + StreamAggregateTransform; the sql-side planner is not in the loop",
                         "1 WAL partition (C01's defect kept out)", "float sums compared with 1e-9 relative tolerance; generated floats are multiples of 1/8"],
         "quick": {"runs": 6000, "budget_s": 150, "workers": 14},
-        "thorough": {"runs": 40000, "budget_s": 1800, "workers": 16, "env": {"VERIF_RUN_TIMEOUT_S": "900"}},
+        "thorough": {"runs": 40000, "budget_s": 1200, "workers": 16, "env": {"VERIF_RUN_TIMEOUT_S": "900"}},
     },
 }
